@@ -33,12 +33,13 @@ type PkgSpec struct {
 	Embed   bool     `json:"embed,omitempty"` // //go:embed data file
 	Decl    bool     `json:"decl,omitempty"`   // imports a declaration-only package (LLGoPackage = "decl") whose constant is compiled into it
 	SymSrc  bool     `json:"symsrc,omitempty"` // one of its Go files is a symbolic link to a file outside the package directory
+	HasH    bool     `json:"h,omitempty"`     // its C file includes a header from its own directory
 	CDef    bool     `json:"cdef,omitempty"`  // LLGoFiles = "$C13_CDEF: ..." - the C file is compiled with flags taken from an environment variable
 	Ext     bool     `json:"ext,omitempty"`   // lives in a second module (c13ext) that the main module requires at v1.0.0 and replaces by a local directory
 }
 
 type Step struct {
-	K       string `json:"k"`   // edit-src edit-src-same edit-c edit-embed edit-decl edit-link tag x abi env cenv repro build noop clear crash fserr
+	K       string `json:"k"`   // edit-src edit-src-same edit-c edit-h edit-embed edit-decl edit-link tag x abi env cenv cflags repro build noop clear crash fserr
 	Pkg     int    `json:"pkg"` // package index for edits
 	Arg     int    `json:"arg,omitempty"`
 	Torn    bool   `json:"torn,omitempty"`
@@ -82,7 +83,7 @@ func battery(clock string, embed, ext bool) *Scenario {
 		{Name: "p0", Imports: []string{"p1", "p3"}, HasTag: true},
 		{Name: "p1", Imports: []string{"p2"}, Decl: true, SymSrc: true},
 		{Name: "p2", Imports: []string{"p3"}, HasC: true, TwoC: true, LinkLib: haveBz2},
-		{Name: "p3", HasC: true, CDef: true, Embed: embed, Ext: ext},
+		{Name: "p3", HasC: true, CDef: true, HasH: true, Embed: embed, Ext: ext},
 	}
 	b := Step{K: "build"}
 	n := Step{K: "noop"} // a rebuild without any change: it reuses what the build before it left in the cache
@@ -108,6 +109,9 @@ func battery(clock string, embed, ext bool) *Scenario {
 		{K: "env", Arg: 0}, b, // and back: the traced archives must not be reused
 		{K: "cenv", Arg: 3}, b, // the environment variable in p3's LLGoFiles compile flags changes what its C file computes
 		{K: "cenv", Arg: 0}, b,
+		{K: "cflags", Arg: 2}, b, // CFLAGS reaches every C compilation
+		{K: "cflags", Arg: 0}, b,
+		{K: "edit-h", Pkg: 3}, b, // a header p3's C file includes from its own directory
 		{K: "edit-decl", Pkg: 1}, b, // a constant of a declaration-only package compiled into p1
 		{K: "edit-link", Pkg: 1}, b, // the target of a symbolic link among p1's source files
 	}
@@ -139,6 +143,7 @@ func (prop) Generate(rng *sim.Rng, tier string, runIndex int) driver.Scenario {
 		p.TwoC = p.HasC && rng.Intn(2) == 0
 		p.LinkLib = p.HasC && haveBz2 && rng.Intn(2) == 0
 		p.CDef = p.HasC && rng.Intn(2) == 0
+		p.HasH = p.HasC && rng.Intn(2) == 0
 		p.Decl = rng.Intn(3) == 0
 		p.SymSrc = rng.Intn(3) == 0
 		p.HasTag = rng.Intn(3) == 0
@@ -202,6 +207,10 @@ func (prop) Generate(rng *sim.Rng, tier string, runIndex int) driver.Scenario {
 		p := sc.Pkgs[pi]
 		var st Step
 		switch r := rng.Intn(16); {
+		case p.HasH && rng.Intn(8) == 0:
+			st = Step{K: "edit-h", Pkg: pi}
+		case p.HasC && rng.Intn(16) == 0:
+			st = Step{K: "cflags", Arg: rng.Intn(3)}
 		case p.Decl && rng.Intn(8) == 0:
 			st = Step{K: "edit-decl", Pkg: pi}
 		case p.SymSrc && rng.Intn(8) == 0:
@@ -275,6 +284,7 @@ type pkgState struct {
 	xVal     string
 	declVer  int
 	cfgVer   int
+	hVal     int
 }
 
 type world struct {
@@ -286,6 +296,7 @@ type world struct {
 	abi   int
 	trace bool  // LLGO_TRACE=1
 	cdef  int   // C13_CDEF=-DC13K=<cdef> (0: variable unset)
+	gflag int   // CFLAGS=-DC13G=<gflag> (0: variable unset): reaches every C compilation
 	clock int64 // simulated file-time clock (unix ns)
 	log   []string
 	keep  bool
@@ -326,9 +337,12 @@ func (w *world) line(i int) string {
 	p, s := w.sc.Pkgs[i], w.st[i]
 	parts := []string{p.Name, fmt.Sprintf("src=v%04d", s.srcVer), "aux=23"}
 	if p.HasC {
-		c := s.cVal
+		c := s.cVal + 1000*w.gflag
 		if p.CDef {
 			c += 100 * w.cdef
+		}
+		if p.HasH {
+			c += s.hVal
 		}
 		parts = append(parts, fmt.Sprintf("c=%d", c))
 	}
@@ -557,10 +571,13 @@ func auxSum() int {
 
 func (w *world) cSource(i int) string {
 	p := w.sc.Pkgs[i]
-	src := fmt.Sprintf("int %s_cval(void) { return %d; }\n", p.Name, w.st[i].cVal)
-	if p.CDef {
-		src = fmt.Sprintf("#ifndef C13K\n#define C13K 0\n#endif\nint %s_cval(void) { return %d + 100 * C13K; }\n", p.Name, w.st[i].cVal)
+	src := "#ifndef C13K\n#define C13K 0\n#endif\n#ifndef C13G\n#define C13G 0\n#endif\n"
+	if p.HasH {
+		src += "#include \"w.h\"\n"
+	} else {
+		src += "#define HOFF 0\n"
 	}
+	src += fmt.Sprintf("int %s_cval(void) { return %d + 100 * C13K + 1000 * C13G + HOFF; }\n", p.Name, w.st[i].cVal)
 	return src
 }
 
@@ -600,6 +617,9 @@ func (w *world) writeAll() {
 		}
 		if p.TwoC {
 			w.write(filepath.Join(d, "_wrap", "w2.c"), fmt.Sprintf("int %s_cval2(void) { return %d; }\n", p.Name, w.st[i].c2Val))
+		}
+		if p.HasH {
+			w.write(filepath.Join(d, "_wrap", "w.h"), fmt.Sprintf("#define HOFF %d\n", w.st[i].hVal))
 		}
 		if p.HasTag {
 			w.write(filepath.Join(d, "variant_default.go"), "//go:build !alt\n\npackage "+p.Name+"\n\nconst variant = \"default\"\n")
@@ -674,6 +694,9 @@ func (w *world) build(crashAt int, fserr int, torn bool, match ...string) buildR
 	}
 	if w.cdef > 0 {
 		cmd.Env = append(cmd.Env, fmt.Sprintf("C13_CDEF=-DC13K=%d", w.cdef))
+	}
+	if w.gflag > 0 {
+		cmd.Env = append(cmd.Env, fmt.Sprintf("CFLAGS=-DC13G=%d", w.gflag))
 	}
 	if len(match) > 0 && match[0] != "" {
 		if strings.HasPrefix(match[0], "fserr:") {
@@ -805,6 +828,9 @@ func (w *world) irBuild(k int) (map[string][]byte, string) {
 	}
 	if w.cdef > 0 {
 		cmd.Env = append(cmd.Env, fmt.Sprintf("C13_CDEF=-DC13K=%d", w.cdef))
+	}
+	if w.gflag > 0 {
+		cmd.Env = append(cmd.Env, fmt.Sprintf("CFLAGS=-DC13G=%d", w.gflag))
 	}
 	out, _ := cmd.CombinedOutput() // with LLVM 14 the textual round trip of some packages fails after their .ll was written
 	files, _ := filepath.Glob(filepath.Join(tmp, "*.ll"))
@@ -963,6 +989,22 @@ func (prop) Run(scx driver.Scenario, ch *sim.Choices, keep bool) *driver.Result 
 			lastEdit, sameMtime = st.K, false
 			res.Probes["env-C-flag-variable-changes"]++
 			w.logf("step %d: C13_CDEF=-DC13K=%d (environment variable expanded in a package's LLGoFiles compile flags)", si, w.cdef)
+		case "cflags":
+			w.gflag = st.Arg
+			lastEdit, sameMtime = st.K, false
+			res.Probes["env-CFLAGS-changes"]++
+			w.logf("step %d: CFLAGS=-DC13G=%d (prepended to every C compilation)", si, w.gflag)
+		case "edit-h":
+			s := &w.st[st.Pkg]
+			path := filepath.Join(w.pkgDir(st.Pkg), "_wrap", "w.h")
+			before, _ := os.Stat(path)
+			s.hVal = (s.hVal + 3) % 10 // one digit: same size
+			w.write(path, fmt.Sprintf("#define HOFF %d\n", s.hVal))
+			after, _ := os.Stat(path)
+			sameMtime = before != nil && after != nil && before.Size() == after.Size() && before.ModTime().Equal(after.ModTime())
+			lastEdit = st.K
+			res.Probes["header-edits"]++
+			w.logf("step %d: edit the header %s's C file includes -> HOFF %d (same mtime+size: %v)", si, sc.Pkgs[st.Pkg].Name, s.hVal, sameMtime)
 		case "repro":
 			a, la := w.irBuild(1)
 			b, lb := w.irBuild(2)
